@@ -161,6 +161,7 @@ class Ctx:
         self.used_lemmas = set()     # names of proved lemmas whose instances were used as hypotheses
         self.cnt_mono = False        # add cnt_mono instances over pairs of instantiation terms
         self.used_expr_contracts = set()
+        self.underdetermined = False  # a library / callee contract returned a value it only constrains (cross-check: consistency)
         self.definitions = []        # definitional equations of opaque symbols applied on this path (for the CPython cross-check)
         self.term_maps = []          # unary z3 functions applied to the instantiation terms (e.g. a sort permutation)
         self.len_vars = []           # length variables of list / table inputs (for small counter-models)
